@@ -164,7 +164,7 @@ impl MatchLevel for &TopicFilterLevel {
 fn match_level_impl(
     subset_level: &TopicFilterLevel,
     superset_level: &TopicFilterLevel,
-    _index: usize,
+    index: usize,
 ) -> bool {
     match superset_level {
         TopicFilterLevel::Normal(rhs) => {
@@ -174,8 +174,14 @@ fn match_level_impl(
             matches!(subset_level, TopicFilterLevel::System(lhs) if lhs == rhs)
         }
         TopicFilterLevel::Blank => *subset_level == TopicFilterLevel::Blank,
-        TopicFilterLevel::SingleWildcard => *subset_level != TopicFilterLevel::MultiWildcard,
-        TopicFilterLevel::MultiWildcard => true,
+        // wildcards do not cover a first level starting with `$`
+        TopicFilterLevel::SingleWildcard => {
+            *subset_level != TopicFilterLevel::MultiWildcard
+                && !(index == 0 && matches!(subset_level, TopicFilterLevel::System(_)))
+        }
+        TopicFilterLevel::MultiWildcard => {
+            !(index == 0 && matches!(subset_level, TopicFilterLevel::System(_)))
+        }
     }
 }
 
